@@ -4,7 +4,8 @@
 cd /verif; mkdir -p /tmp/sv/sd
 run_one() {
   t=$1; prop=${t:0:3}
-  out=$(/verif/tools/try_patch.sh /verif/seeded/$t/patch.diff $prop 2>&1)
+  cp /verif/seeded/$t/patch.diff /tmp/sv/sd/seed_$t.diff     # unique name: try_patch derives its scratch paths from the patch file name
+  out=$(/verif/tools/try_patch.sh /tmp/sv/sd/seed_$t.diff $prop 2>&1)
   ex=$(echo "$out" | grep -o "check exit=[0-9]*" | head -1 | sed 's/check exit=//')
   conc=$(echo "$out" | grep "^VIOLATION" | grep -vc "no-failing-input-found")
   nf=$(echo "$out" | grep "^VIOLATION" | grep -c "no-failing-input-found")
